@@ -495,14 +495,96 @@ def selftest():
 
 
 # --------------------------------------------------------------------------------------
+def history_probe(run):
+    """call histories in one process (the property quantifies over every W, F, Q, H, R -- also the second one a
+    program passes): each routine is called with STRUCTURALLY SPARSE arguments first (diagonal Q, block F, unit-row H:
+    how the estimators call it) and then, for the same dimensions, with full ones; every result is checked against
+    its defining identity.  State kept between calls (a cache keyed by dimension, a memoised pattern) shows here.
+    Dimension 5 is used: no other part of this check touches it, so these are the first calls for that size."""
+    from cyecca import util
+    rng = np.random.default_rng(12345)
+    n = 5
+
+    def num(x):
+        return np.array(ca.evalf(ca.densify(x)))
+
+    def lyap(tag, W, F, Q):
+        try:
+            Wd = num(util.sqrt_covariance_predict(ca.SX(W), ca.SX(F), ca.SX(Q)))
+        except Exception as ex:     # noqa
+            run.violation(f"sqrt_covariance_predict/history/raises/{tag}", f"{type(ex).__name__}: {ex}", {"history": tag}); return
+        Wn, Fn, Qn = num(W), num(F), num(Q)
+        P = Wn @ Wn.T
+        lhs = Wd @ Wn.T + Wn @ Wd.T
+        rhs = Fn @ P + P @ Fn.T + Qn
+        run.count("history_calls")
+        if not (np.all(np.isfinite(Wd)) and np.max(np.abs(lhs - rhs)) <= 1e-9 * max(1.0, np.max(np.abs(rhs)))):
+            run.violation(f"sqrt_covariance_predict/history/lyapunov/{tag}", "W' W^T + W W'^T differs from F P + P F^T + Q for a call that follows "
+                          "calls with differently structured arguments of the same size", {"history": tag, "lhs": lhs.tolist(), "rhs": rhs.tolist()})
+    Wl = np.tril(rng.integers(1, 4, (n, n))).astype(float) + np.eye(n)
+    Fs = np.zeros((n, n)); Fs[0:2, 3:5] = rng.integers(-2, 3, (2, 2))
+    Qd = np.diag(rng.integers(1, 4, n)).astype(float)
+    Fd = rng.integers(-2, 4, (n, n)).astype(float)
+    A = rng.integers(-1, 3, (n, n)).astype(float); Qf = A @ A.T
+    lyap("1:sparse", ca.sparsify(ca.DM(Wl)), ca.sparsify(ca.DM(Fs)), ca.sparsify(ca.DM(Qd)))
+    lyap("2:dense_after_sparse", ca.DM(Wl), ca.DM(Fd), ca.DM(Qf))
+    lyap("3:sparse_after_dense", ca.sparsify(ca.DM(Wl)), ca.sparsify(ca.DM(Fs)), ca.sparsify(ca.DM(Qd)))
+    lyap("4:other_dense", ca.DM(Wl.T @ np.tril(np.ones((n, n))) * 0 + np.tril(Wl + 1)), ca.DM(Fd.T), ca.DM(Qf + np.eye(n)))
+
+    def corr(tag, W, H, Rs):
+        try:
+            Wp, K, Ss = util.sqrt_correct(ca.SX(Rs), ca.SX(H), ca.SX(W))
+            Wp, K, Ss = num(Wp), num(K), num(Ss)
+        except Exception as ex:     # noqa
+            run.violation(f"sqrt_correct/history/raises/{tag}", f"{type(ex).__name__}: {ex}", {"history": tag}); return
+        Wn, Hn, Rn = num(W), num(H), num(Rs)
+        P = Wn @ Wn.T
+        S = Hn @ P @ Hn.T + Rn @ Rn.T
+        Kx = P @ Hn.T @ np.linalg.inv(S)
+        Pp = (np.eye(n) - Kx @ Hn) @ P
+        run.count("history_calls")
+        ok = (np.max(np.abs(K - Kx)) <= 1e-9 * max(1.0, np.max(np.abs(Kx))) and np.max(np.abs(Ss @ Ss.T - S)) <= 1e-9 * np.max(np.abs(S))
+              and np.max(np.abs(Wp @ Wp.T - Pp)) <= 1e-9 * max(1.0, np.max(np.abs(Pp))))
+        if not ok:
+            run.violation(f"sqrt_correct/history/identities/{tag}", "K, Ss or W+ violate their defining identities for a call that follows calls with "
+                          "differently structured arguments of the same size", {"history": tag, "K": K.tolist(), "K_expected": Kx.tolist()})
+    Hs = np.zeros((2, n)); Hs[0, 0] = 1; Hs[1, 1] = 1
+    Hd = rng.integers(-2, 4, (2, n)).astype(float)
+    corr("1:sparse", ca.sparsify(ca.DM(Wl)), ca.sparsify(ca.DM(Hs)), ca.sparsify(ca.DM(2 * np.eye(2))))
+    corr("2:dense_after_sparse", ca.DM(Wl), ca.DM(Hd), ca.DM(np.array([[2.0, 1.0], [-1.0, 3.0]])))
+    corr("3:sparse_after_dense", ca.sparsify(ca.DM(Wl)), ca.sparsify(ca.DM(Hs)), ca.sparsify(ca.DM(2 * np.eye(2))))
+
+    def fact(tag, which, P):
+        fn = util.ldl_symmetric_decomposition if which == "ldl" else util.udu_symmetric_decomposition
+        try:
+            T, D = fn(ca.SX(P)); T, D = num(T), num(D)
+        except Exception as ex:     # noqa
+            run.violation(f"{which}/history/raises/{tag}", f"{type(ex).__name__}: {ex}", {"history": tag}); return
+        Pn = num(P)
+        run.count("history_calls")
+        if not np.max(np.abs(T @ D @ T.T - Pn)) <= 1e-9 * np.max(np.abs(Pn)):
+            run.violation(f"{which}/history/reconstruct/{tag}", "T D T^T differs from P for a call that follows calls with differently structured "
+                          "arguments of the same size", {"history": tag})
+    Pa = np.diag([6.0, 7, 8, 9, 12]); Pa[4, :4] = Pa[:4, 4] = [1, -1, 2, 1]
+    Pf = Qf + 3 * np.eye(n)
+    for which in ("ldl", "udu"):
+        fact("1:sparse", which, ca.sparsify(ca.DM(Pa)))
+        fact("2:dense_after_sparse", which, ca.DM(Pf))
+        fact("3:sparse_after_dense", which, ca.sparsify(ca.DM(Pa)))
+
+
 def main():
     tier = sys.argv[1] if len(sys.argv) > 1 else "quick"
     run = Run(PID, tier)
     fns = Fns(run)
     selftest()
+    if "--replay" not in sys.argv:
+        history_probe(run)
     if "--replay" in sys.argv:
         d = json.load(open(sys.argv[sys.argv.index("--replay") + 1]))["data"]
-        if "tv" in d:
+        if "history" in d:
+            history_probe(run)
+        elif "tv" in d:
             replay_tlc(run, fns, {keyof(d["tv"]): [d["tv"]]})
         else:
             replay_resid(run, fns, [d["rv"]])
